@@ -79,6 +79,21 @@ func (r *Run) Fail(oracle, key, format string, a ...interface{}) {
 	panic(failPanic{&Failure{Class: r.Prop + "/" + oracle, Key: key, Msg: fmt.Sprintf(format, a...)}})
 }
 
+// Scoped runs f; a violation raised inside is re-raised under the given oracle and key
+// (the original class and message are kept in the message). Used where one listed
+// defect makes a whole family of requests fail in many different ways.
+func (r *Run) Scoped(oracle, key string, f func()) {
+	defer func() {
+		if p := recover(); p != nil {
+			if fp, ok := p.(failPanic); ok {
+				panic(failPanic{&Failure{Class: r.Prop + "/" + oracle, Key: key, Msg: "[" + fp.f.Class + " | " + fp.f.Key + "] " + fp.f.Msg}})
+			}
+			panic(p)
+		}
+	}()
+	f()
+}
+
 // ---- logical step budget -------------------------------------------------------
 
 var (
